@@ -630,3 +630,71 @@ def integrals_start_from_zero(ctx, F, rule, sfx, trait):
         n += 1
         ctx.check(rule, '%s:starts-from-zero%s' % (st.split('::')[-1], sfx), not bad, bad or 'all accumulators zero', 'init() == zero accumulators', where(ib), key_extra='init-zero')
     return n
+
+
+def wrappers_forward(ctx, F, rule, sfx):
+    """The face records wrap the user's / built-in integral: FaceIntegrator::collect hands (v0, v1, v2, generator) to the integral unchanged and
+    in order, exactly once; finalize replaces the integral by its finalized value and leaves left/right/shift alone; VoronoiFace does the same
+    through its inner record.  (A swapped pair of base points flips the orientation sign of every triangle; a dropped finalize leaves
+    un-normalised centroids.)"""
+    pts = ['DVec3{x: %s.x, y: %s.y, z: %s.z}' % (n, n, n) for n in ('v0', 'v1', 'v2', 'g')]
+    for nm in ('integrals::FaceIntegrator::collect', 'voronoi_face::VoronoiFace::collect'):
+        b = F.body_by_suffix(nm)
+        ip = I.Interp(F, no_inline=[x['path'] for x in F.bodies if x['path'].endswith(('FaceIntegral>::collect', 'FaceIntegral>::finalize'))])
+        ty = b['locals'][1]['ty']
+        me = I.Sym(nf.sym_atom('fi'), ty.lstrip('&').replace('mut ', '').strip())
+        r = ip.ref_to(me, ty, mut=True)
+        ip.call_body(b, [r] + [I.sym_vec3(x) for x in ('v0', 'v1', 'v2', 'g')])
+        ctx.evaluations += ip.evaluations
+        ev = [e for e in ip.events if e.callee and e.callee.endswith('FaceIntegral::collect')]
+        ok = len(ev) == 1 and repr(ev[0].fargs[0]).startswith('fi.') and repr(ev[0].fargs[0]).endswith('integral') and [repr(a) for a in ev[0].fargs[1:]] == pts and not ev[0].guard
+        short_nm = nm.split('::', 1)[1]
+        ctx.check(rule, 'forwards-triangle:%s%s' % (short_nm, sfx), ok, [repr(a)[-22:] for a in ev[0].fargs] if ev else 'no call of the integral\'s collect', 'integral.collect(v0, v1, v2, gen), once, unconditionally', where(b), key_extra='fwd-collect')
+    for nm in ('integrals::FaceIntegrator::finalize', 'voronoi_face::VoronoiFace::finalize'):
+        b = F.body_by_suffix(nm)
+        ip = I.Interp(F, no_inline=[x['path'] for x in F.bodies if x['path'].endswith(('FaceIntegral>::collect', 'FaceIntegral>::finalize'))])
+        ty = b['locals'][1]['ty']
+        me = I.Sym(nf.sym_atom('fi'), ty.lstrip('&').replace('mut ', '').strip())
+        v, _ = ip.call_body(b, [ip.ref_to(me, ty, mut=True) if ty.startswith('&') else me])
+        ctx.evaluations += ip.evaluations
+        txt = repr(I.frozen(v)).replace(' ', '')
+        # FaceIntegrator{integral: finalize(fi.integral), ..fi}   /   VoronoiFace{inner: ..{integral: finalize(fi.inner.integral), ..fi.inner}, ..fi}
+        ok = bool(re.match(r'^[A-Za-z<>_:]+\{(?:inner:[A-Za-z<>_:]+\{)?integral:call:voronoi::integrals::FaceIntegral::finalize\(fi(?:\.inner)?\.integral\),\.\.fi(?:\.inner\},\.\.fi)?\}$', txt))
+        short_nm = nm.split('::', 1)[1]
+        ctx.check(rule, 'finalizes-integral-only:%s%s' % (short_nm, sfx), ok, txt[:160], 'the same record with integral = integral.finalize()', where(b), key_extra='fwd-finalize')
+
+
+def cell_record_constructor(ctx, F, rule, sfx):
+    """VoronoiCell::init stores each argument in the field of the same meaning (read back through the public accessors)."""
+    b = F.body_by_suffix('voronoi_cell::VoronoiCell::init')
+    n = b.get('arg_count', 0)
+    names = [d.get('name') for d in b.get('debug', []) if d.get('arg')] if b.get('debug') else []
+    ip = I.Interp(F)
+    args = []
+    syms = []
+    for i in range(1, n + 1):
+        ty = b['locals'][i]['ty']
+        nm = 'a%d' % i
+        syms.append((nm, ty))
+        args.append(I.sym_vec3(nm) if 'DVec3' in ty else RF.sym(nm))
+    v, _ = ip.call_body(b, args)
+    ctx.evaluations += ip.evaluations
+    # roles of the arguments by type and by what from_convex_cell passes (checked by C13.R3): (loc, centroid, volume, safety_radius, idx)
+    vecs = [nm for nm, ty in syms if 'DVec3' in ty]
+    f64s = [nm for nm, ty in syms if ty == 'f64']
+    ints = [nm for nm, ty in syms if ty == 'usize']
+    if len(vecs) != 2 or len(f64s) != 2 or len(ints) != 1:
+        raise AnalysisIncomplete('VoronoiCell::init has an unexpected signature: %s' % [t for _n, t in syms])
+    want = {'loc': vecs[0], 'centroid': vecs[1], 'volume': f64s[0], 'safety_radius': f64s[1]}
+    bad = []
+    for acc, sym in want.items():
+        ab = F.body_by_suffix('voronoi_cell::VoronoiCell::' + acc)
+        got, _ = ip.call_body(ab, [ip.ref_to(v)])
+        g = repr(I.frozen(got)).replace(' ', '')
+        w_ = sym if sym in f64s else 'DVec3{x:%s.x,y:%s.y,z:%s.z}' % (sym, sym, sym)
+        if g != w_:
+            bad.append('%s() = %s' % (acc, g[:50]))
+    gi = repr(I.frozen(I.get_field(v, 'idx')))
+    if gi != ints[0]:
+        bad.append('idx = %s' % gi)
+    ctx.check(rule, 'cell-record-fields%s' % sfx, not bad, bad or 'loc, centroid, volume, safety_radius, idx stored as given', 'VoronoiCell::init(loc, centroid, volume, safety_radius, idx) stores argument k in field k', where(b), key_extra='cell-init')
